@@ -66,6 +66,65 @@ SEEDS = {
     needs="file size an exact non-zero multiple of the page size", demo="demo.c run.sh"),
  "c20-strict-sib-swap-nasm": dict(property="C20", file="tools/asmline.c set_sib_all",
     change="--strict-sib maps its index/base-swap half to NASM", needs="--strict-sib and a line with [x+rsp]-style swap candidate", demo="demo.sh"),
+ # ---- second round (sub-agents were told which site the first round used and asked for a different mechanism) ----
+ "c02-nobase-r13-zero-disp-mask": dict(property="C02", file="src/prefix.c get_reg",
+    change="after the NASM no-base rewriting the rbp/r13 zero-disp8 rule tests (reg & REG_MASK) instead of VALUE_MASK, so r13/r13d no longer match",
+    needs="memory operand without base, index r13/r13d, scale 1 or 2, no displacement, NASM no-base mode", demo="demo.sh"),
+ "c03-push-neg-imm8-range": dict(property="C03", file="src/parser.c line_to_instr",
+    change="push imm8/imm32 row choice uses NEG8BIT instead of NEG80BIT: -256..-129 stay on the imm8 row",
+    needs="push with an immediate in [-256,-129]", demo="demo.sh"),
+ "c04-rex-before-getreg-three-opd": dict(property="C04", file="src/encoder.c encode_three_opds",
+    change="get_rex_prefix() moved before get_reg(), which rewrites a base-less operand (index becomes base)",
+    needs="three-operand VEX form, memory operand without base, r8-r15 index, scale 1 or 2, NASM no-base mode", demo="demo.sh"),
+ "c07-short-buffer-unsigned-wrap": dict(property="C07", file="src/parser.c check_len_or_resize",
+    change="room test rewritten with unsigned last_pos = buffer_len - 20, which wraps for buffers shorter than 20",
+    needs="caller buffer with n < 20, any assemble call", demo="demo.c run.sh"),
+ "c10-third-operand-register-unchecked": dict(property="C10", file="src/parser.c check_registers",
+    change="loop bound 3 -> THIRD_OPERAND (=2): the third operand's register error flag is never tested",
+    needs="unknown register name in the third operand (or its base/index) of a 3/4-operand instruction", demo="demo.c demo.sh run.sh"),
+ "c12-mov-imm-strict-keeps-nasm": dict(property="C12", file="src/assemblyline.c asm_mov_imm",
+    change="STRICT case clears only SMART_MOV_IMM, not NASM_MOV_IMM",
+    needs="mov-imm dimension currently NASM, then a STRICT setting; mov r64, imm32-fitting", demo="demo.c run.sh"),
+ "c14-count-not-reset-below-2": dict(property="C14", file="src/parser.c assemble_all",
+    change="*dest = 0 only in CHUNK_COUNT mode, so a counting call with chunk size < 2 leaves the caller's counter untouched",
+    needs="counting call with chunk size < 2 and a counter variable that is not already 0", demo="demo.c run.sh"),
+ "c17-fclose-result-ignored": dict(property="C17", file="src/assemblyline.c asm_create_bin_file",
+    change="ferror() tested before fclose(), fclose()'s result discarded",
+    needs="write failure that only shows at fclose (buffered data, ENOSPC/EFBIG)", demo="demo.c demo.sh run.sh"),
+ "c19-counting-empty-file-munmap-len": dict(property="C19", file="src/assemblyline.c asm_mmap_file and wrappers",
+    change="*str_len redefined as st_size; the counting wrapper still munmaps str_len (0 for an empty file -> EINVAL -> EXIT_FAILURE)",
+    needs="asm_assemble_file_counting_chunks on an empty file", demo="demo.c run.sh"),
+ "c20-smart-flag-deferred": dict(property="C20", file="tools/asmline.c parse_opt case 's'",
+    change="-s records mov_imm for later instead of calling asm_set_all(SMART) at its position",
+    needs="-s followed by -t or -n (or preceded by --nasm/--strict-mov-imm) and a mov r64, imm32-fitting", demo="demo.c demo.sh"),
+ "c01-xchg-r8-al-short-form": dict(property="C01", file="src/encoder.c encode_operands",
+    change="accumulator short form of xchg chosen when (mode != noext8) instead of (mode > noext8): al as second operand takes the 90+rd row",
+    needs="xchg <reg8>, al (8-bit, al second)", demo="demo.sh"),
+ "c05-neg-rel32-extra-zero-strict": dict(property="C05", file="src/assembler.c check_zero",
+    change="the CONTROL_FLOW exclusion moved behind the 'not NASM mov-imm' early return: negative rel32 gets the extra zero byte and is padded to 8",
+    needs="rel32 form with a negative displacement and the NASM mov-immediate bit clear (STRICT, or SMART with a 16-digit hex literal)", demo="demo.c demo.sh run.sh"),
+ "c06-grow-copies-committed-offset-only": dict(property="C06", file="src/parser.c check_len_or_resize",
+    change="mremap replaced by mmap+memcpy(al->offset bytes)+munmap: bytes the running call has already emitted are not copied",
+    needs="managed buffer, a multi-line call that crosses a 6000-byte growth point after emitting at least one instruction", demo="demo.c demo.sh run.sh"),
+ "c08-counting-on-instance-copy": dict(property="C08", file="src/assemblyline.c asm_assemble_string_counting_chunks",
+    change="counting runs on a shallow copy of the instance; only the offset is copied back, so a growth inside the call is lost",
+    needs="managed buffer, counting call, growth during that call", demo="demo.c demo.sh run.sh"),
+ "c09-lone-cr-no-progress": dict(property="C09", file="src/parser.c str_to_instr",
+    change="line terminator step rewritten as CRLF-pair handling: a CR not followed by LF is never consumed (zero progress, endless loop)",
+    needs="text with a carriage return not followed by a line feed", demo="demo.c demo.sh run.sh"),
+ "c11-nobase-r12-r13-mask": dict(property="C11", file="src/prefix.c get_reg",
+    change="bpl/spl comparisons after the no-base rewriting use REG_MASK instead of VALUE_MASK",
+    needs="NASM no-base option, no base, scale 1 or 2, index r13 (no displacement) or r12 (scale 1)", demo="demo.sh combo.sh"),
+ "c13-modulo-as-mask": dict(property="C13", file="src/parser.c assemble_with_chunk_fitting",
+    change="pos % chunk replaced by pos & (chunk-1)", needs="chunk fitting with a chunk size that is not a power of two", demo="demo.c demo.sh run.sh"),
+ "c15-set-chunk-size-shortcut": dict(property="C15", file="src/assemblyline.c asm_set_chunk_size",
+    change="early return when the requested size equals al->chunk_size, which the '<2' branch never updates",
+    needs="history set_chunk_size(N), set_chunk_size(0|1), set_chunk_size(N) again", demo="demo.c run.sh"),
+ "c16-upper-z-not-lowered": dict(property="C16", file="src/parser.c filter_assembly_str_fsa",
+    change="tolower replaced by a helper whose range test stops at 'Y'", needs="an upper-case 'Z' in a mnemonic (MOVZX, BZHI, SETZ, CMOVZ, JRCXZ ...)", demo="demo.sh"),
+ "c18-index-tables-rebuilt-backwards": dict(property="C18", file="src/assemblyline.c asm_build_index_tables",
+    change="tables filled walking backwards, storing every row: entries are transiently wrong while any thread creates an instance",
+    needs="one thread in asm_create_instance while another assembles on its own instance", demo="demo.c run.sh"),
 }
 CONFIRMED = ("applied in a scratch worktree of /repo: builds, `make check -j1` gives the same 96 PASS set as the unchanged tree; "
              "the demonstration fails with the change and passes without it")
